@@ -47,6 +47,16 @@ func replay(c *vlib.Ctx) {
 		c.Count(1, 1)
 		c.Finish()
 	}
+	if strings.HasPrefix(f.Key, "policy-over-depth-") {
+		_, _, derr, pan := t.SafeDecode(bs)
+		if pan != nil {
+			k.violation("policy-over-depth-panic:"+t.Name, t.Name+": the decoder panics on a policy nested deeper than 32", t, nil, map[string]any{"bytes_hex": f.Case.BytesHex})
+		} else if derr == nil {
+			k.violation("policy-over-depth-accepted:"+t.Name, t.Name+": the decoder accepts a policy nested deeper than 32", t, nil, map[string]any{"bytes_hex": f.Case.BytesHex})
+		}
+		c.Count(1, 1)
+		c.Finish()
+	}
 	ptr, _, derr, pan := t.SafeDecode(bs)
 	if pan != nil || derr != nil {
 		k.violation("roundtrip-decode:"+t.Name, t.Name+": decoder rejects the recorded encoding", t, nil, map[string]any{"bytes_hex": f.Case.BytesHex})
